@@ -71,10 +71,13 @@ class Callback:
     def __enter__(self):
         self._cm = add_callbacks(self)
         self._cm.__enter__()
+        # a stack, not a single slot: the same object may be entered again
+        # inside its own context and every exit has to undo its own enter
+        self.__dict__.setdefault("_cms", []).append(self._cm)
         return self
 
     def __exit__(self, *args):
-        self._cm.__exit__(*args)
+        self._cms.pop().__exit__(*args)
 
     def register(self) -> None:
         Callback.active.add(self._callback)
@@ -135,11 +138,17 @@ class add_callbacks:
 
     def __init__(self, *callbacks):
         self.callbacks = [normalize_callback(c) for c in callbacks]
+        # Only what this context activates is deactivated again when it is
+        # left: callbacks that an enclosing context or an earlier
+        # ``register()`` made active stay active.
+        self._added = [
+            c for c in dict.fromkeys(self.callbacks) if c not in Callback.active
+        ]
         Callback.active.update(self.callbacks)
 
     def __enter__(self):
         return
 
     def __exit__(self, type, value, traceback):
-        for c in self.callbacks:
+        for c in self._added:
             Callback.active.discard(c)
